@@ -45,6 +45,13 @@ LIMITS = {'quick': dict(nlife=160, crash_n=12, rand_n=60, nrandkill=30),
 
 
 def payload(i):
+    # falsy and None examples are legitimate pipeline values too
+    if i % 7 == 1:
+        return None
+    if i % 7 == 5:
+        return 0
+    if i % 7 == 4:
+        return []
     size = 9000 if i % 3 == 0 else 3 + i % 5
     return {'id': i, 'payload': [i] * size}
 
